@@ -200,6 +200,37 @@ def dispatch_suite(tier, seed):
         for c in load_corpus('core'):
             if 'reg' in c:
                 items.append((c['name'], c['reg'], c.get('policies', ['vec', 'chk']), c.get('file')))
+        if tier == 'thorough':
+            # exhaustive small scope: every DAG on <= 3 classes x every bi-method (vp pair) x every set of <= 2 definitions,
+            # and every DAG on 4 classes x every uni-method x every set of <= 3 definitions (complete base lists)
+            import itertools
+            def dags(n):
+                pairs = [(i, j) for j in range(1, n + 1) for i in range(1, j)]
+                for mask in range(1 << len(pairs)):
+                    yield {j: [i for k, (i, jj) in enumerate(pairs) if jj == j and mask >> k & 1] for j in range(1, n + 1)}
+            ex = 0
+            for n in (1, 2, 3):
+                for par in dags(n):
+                    anc = ancestors(par, n)
+                    recs = [[c, 0, sorted(anc[c])] for c in range(1, n + 1)]
+                    for vp in itertools.product(range(1, n + 1), repeat=2):
+                        cand = [(a, b) for a in range(1, n + 1) if vp[0] in anc[a] for b in range(1, n + 1) if vp[1] in anc[b]]
+                        for k in range(0, 3):
+                            for ds in itertools.combinations(cand, k):
+                                reg = {'n': n, 'parents': {str(c): par[c] for c in par}, 'abstract': [], 'records': recs, 'alias': {}, 'kind': 'exhaustive', 'style': 'full',
+                                       'methods': [{'shape': 'vv', 'vp': list(vp), 'defs': [{'vp': list(d), 'next': 1} for d in ds]}]}
+                                items.append(('x%d' % ex, reg, ['vec'], None)); ex += 1
+            for par in dags(4):
+                anc = ancestors(par, 4)
+                recs = [[c, 0, sorted(anc[c])] for c in range(1, 5)]
+                for vp in range(1, 5):
+                    cand = [a for a in range(1, 5) if vp in anc[a]]
+                    for k in range(0, 4):
+                        for ds in itertools.combinations(cand, k):
+                            reg = {'n': 4, 'parents': {str(c): par[c] for c in par}, 'abstract': [], 'records': recs, 'alias': {}, 'kind': 'exhaustive', 'style': 'full',
+                                   'methods': [{'shape': 'v', 'vp': [vp], 'defs': [{'vp': [d], 'next': 1} for d in ds]}]}
+                            items.append(('x%d' % ex, reg, ['vec'], None)); ex += 1
+            res['exhaustive_small_scope'] = ex
         nrand = 400 if tier == 'quick' else 6000
         pols_cycle = ['vec', 'hash', 'chk', 'map', 'ind', 'thr', 'bc']
         for i in range(nrand):
@@ -273,7 +304,8 @@ def summarize(ctx, res, prop, related=()):
             'rule': 'registries generated by tools/corelib.gen_registry (DAG kinds x presentation styles, see input_distribution) + corpus/core; '
                     'distinct by sha1 of (records, methods); non-trivial = has a class with >= 2 direct bases or a method with >= 2 definitions',
             'samples': samples, 'input_distribution': res['dist'], 'legal_tuples_checked': tuples, 'erroring_tuples': err_tuples,
-            'cases_with_model_impl_difference': ndiff, 'cases_failing_property': nfail, 'suite_wall_s': round(res.get('wall', 0), 1)}
+            'cases_with_model_impl_difference': ndiff, 'cases_failing_property': nfail, 'suite_wall_s': round(res.get('wall', 0), 1),
+            'exhaustive_small_scope_registries': res.get('exhaustive_small_scope', 0)}
 
 
 # --------------------------------------------------------------------------- canonical user-visible observations
